@@ -100,6 +100,10 @@ def decode(
     except (TypeError, ValueError):
         raise InvalidPayloadError()
 
+    # the JWT Claims Set MUST be a JSON object
+    if not isinstance(claims, dict):
+        raise InvalidPayloadError()
+
     return Token(header, claims)
 
 
